@@ -251,6 +251,10 @@ def abstract(case, variant='R', start=None):
             toks.append('C')
         elif k == 'X':
             toks.append(f'X{op[1]}')
+        elif k in 'PU' and variant == 'W':      # session histories: send buffer full / drained
+            toks.append(k)
+        elif k == 'D' and variant == 'W':       # the q-th parked caller gives up
+            toks.append(f'D{op[1]}')
         else:
             raise ValueError(op)
     return ' '.join(toks)
